@@ -30,7 +30,7 @@ class Slice:
     gen: Callable[[], Iterable[Any]]
     run: Callable[[Any], R]
     note: str = ""
-    shards: Optional[int] = None  # default: 4 x jobs
+    shards: Optional[int] = None  # default: 64, independent of the number of jobs (determinism)
     setup: Optional[Callable[[], None]] = None  # per-shard reset (e.g. caches)
 
 
@@ -115,7 +115,7 @@ def run_slices(ctx: Ctx, slices: List[Slice], pool_jobs: Optional[int] = None) -
     jobs = pool_jobs or ctx.jobs
     tasks = []
     for si, sl in enumerate(slices):
-        n = sl.shards or jobs * 4
+        n = sl.shards or 64
         tasks.extend((si, sh, n, ctx.seed) for sh in range(n))
     # VERIF_SEED rotates the order in which shards are handed out (verdict-invariant)
     if tasks:
